@@ -5,6 +5,7 @@ No selector, no real sleeping: when nothing is ready the clock jumps to the
 next timer.  The order in which handles of one ready batch run can be permuted
 by a seeded chooser (independent tasks must not depend on it).
 """
+from .core import CaseTimeout as _CaseTimeout
 import asyncio
 import heapq
 
@@ -82,6 +83,8 @@ class VLoop(asyncio.BaseEventLoop):
                 for t in tasks:
                     try:
                         await t
+                    except _CaseTimeout:
+                        raise
                     except BaseException:
                         pass
         asyncio.set_event_loop(self)
